@@ -14,7 +14,7 @@
    Huber(gamma >= 0).   (LpNorm(inf), IndicatorLpUnitBall(1), IndicatorSimplex, the group norms and KL are
    modelled and tied by the correspondence; see the partial theorems at the end.)                   *)
 From Coq Require Import Reals Lra List Bool.
-From Verif Require Import Base.Num Base.Vec Base.VecR C07.Model C07.Convex C07.Leaves C07.LeafThms C07.Rules C07.L2 C07.Proofs.
+From Verif Require Import Base.Num Base.Vec Base.VecR C07.Model C07.Convex C07.Leaves C07.LeafThms C07.Rules C07.L2 C07.Compose C07.Proofs.
 Import ListNotations.
 Local Open Scope R_scope.
 
@@ -165,6 +165,26 @@ Theorem factory_l2 : forall lam n (g w : list R) (s : R) (x : list R), 0 < lam -
   is_proxs n (F_l2 lam g w) (metric w (repeat s n)) x (prox_l2 w lam (Some g) s x).
 Proof. exact l2_factory_prox. Qed.
 Print Assumptions factory_l2.
+
+(* proximal_composition(prox_f, A, mu):  x + (1/mu) A^T (prox_{f, mu sigma}(A x) - A x)  is the proximal point of
+   f o A whenever A A^T = mu I (A a matrix between unweighted spaces; any functional f). *)
+Theorem rule_composition_sound : forall k n (f : list R -> option R) (A : list (list R)) (mu sigma : R) (x q : list R),
+  rows_ok k n A -> 0 < mu -> 0 < sigma -> length x = n ->
+  (forall u, length u = k -> mvec A (mvec (transpose n A) u) = vscal mu u) ->
+  is_proxs k f (repeat (/ (mu * sigma)) k) (mvec A x) q ->
+  is_proxs n (fun z => f (mvec A z)) (repeat (/ sigma) n) x
+           (vadd x (vscal (1 / mu) (mvec (transpose n A) (vsub q (mvec A x))))).
+Proof. exact rule_composition. Qed.
+Print Assumptions rule_composition_sound.
+Example composition_hypothesis_satisfiable :
+  rows_ok 2 2 [[1; 1]; [-1; 1]] /\
+  forall u : list R, length u = 2%nat -> mvec [[1; 1]; [-1; 1]] (mvec (transpose 2 [[1; 1]; [-1; 1]]) u) = vscal 2 u.
+Proof.
+  split; [split; [reflexivity | repeat constructor]|].
+  intros [|a [|b [|c u]]] H; try discriminate.
+  cbv [mvec transpose zipcons map dot vmul vmap2 sumf vscal repeat]. numR.
+  f_equal; [ring|]. f_equal. ring.
+Qed.
 
 (* The factories called directly with lam and g (weighted space, per-point steps where documented):
    proximal_l1(space, lam, g) is the proximal of lam*||. - g||_1, proximal_l2_squared of lam*||. - g||^2,
